@@ -22,7 +22,7 @@ from vfix import funcs as F
 from monkeytype.stubs import ExistingAnnotationStrategy as S
 from monkeytype.stubs import build_module_stubs, get_updated_definition
 from monkeytype.tracing import CallTrace
-from monkeytype.typing import NoOpRewriter
+from monkeytype.typing import DEFAULT_REWRITER, NoOpRewriter
 
 FUNCTIONS = [
     "monkeytype.stubs.update_signature_args",
@@ -34,7 +34,7 @@ FUNCTIONS = [
 ]
 FUNCS = (F.ann_class, F.ann_generic, F.ann_optional, F.ann_string, F.ann_newtype, F.ann_none_default, F.ann_iter, F.ann_any,
          F.unannotated, F.defaults, F.Klass.method, F.kw_only, F.Deco.annotated_self, F.Deco.__dict__["annotated_cls"].__func__,
-         F.ann_union_none_default)
+         F.ann_union_none_default, F.ann_variadic, F.ann_string_none_default, F.ann_gen_source)
 STRATEGIES = (S.REPLICATE, S.OMIT, S.IGNORE)
 TRACED_TYPES = (int, typing.Union[int, str], List[str], K.B, Optional[K.A], type(None))
 SHAPES = ("return", "yield", "yield+return", "yield+None", "nothing")
@@ -70,7 +70,12 @@ def annot_body(t, funcs=FUNCS, types=TRACED_TYPES):
     if shape.startswith("yield"):
         yld = (int, K.B)[t.take(2)]
     trace = CallTrace(func, traced, ret, yld)
-    defn = get_updated_definition(func, [trace], 0, NoOpRewriter(), strategy)
+    # the configured rewriter applies to TRACED types only (none of the traced types here is changed by the default
+    # chain); a source annotation must come through untouched whatever the rewriter
+    rewriter = NoOpRewriter()
+    if sig.return_annotation is not inspect.Signature.empty and t.take(2) == 1:
+        rewriter = DEFAULT_REWRITER
+    defn = get_updated_definition(func, [trace], 0, rewriter, strategy)
     text = build_module_stubs([defn])[func.__module__].render()
     try:
         info = parse_stub(text, func.__module__, lenient_names=True)
@@ -82,7 +87,7 @@ def annot_body(t, funcs=FUNCS, types=TRACED_TYPES):
     fi = fis[0]
 
     def fail(msg):
-        return check(False, lambda: f"{strategy.name} {func.__qualname__} traced={sorted(traced)} shape={shape}: {msg}\n--- stub ---\n{text}")
+        return check(False, lambda: f"{strategy.name} {func.__qualname__} traced={sorted(traced)} shape={shape} rewriter={type(rewriter).__name__}: {msg}\n--- stub ---\n{text}")
 
     for i, n in enumerate(names):
         p = sig.parameters[n]
@@ -181,8 +186,8 @@ def cli_body(t):
 
 
 tape_harness("cli_flags", [("t", 3)], {}, cli_body, globals())
-tape_harness("annot_quick", [("t", 14)], {}, lambda t: annot_body(t, FUNCS, TRACED_TYPES[:3]), globals())
-tape_harness("annot_thorough", [("t", 14)], {}, lambda t: annot_body(t, FUNCS, TRACED_TYPES), globals())
+tape_harness("annot_quick", [("t", 15)], {}, lambda t: annot_body(t, FUNCS, TRACED_TYPES[:3]), globals())
+tape_harness("annot_thorough", [("t", 15)], {}, lambda t: annot_body(t, FUNCS, TRACED_TYPES), globals())
 
 
 def shards(name, prefix=3):
